@@ -371,10 +371,22 @@ impl<'a, 'tcx> BodyCx<'a, 'tcx> {
                     AggregateKind::Adt(def, vi, _, _, _) => {
                         let adt = tcx.adt_def(*def);
                         let vname = adt.variant(*vi).name.to_string();
+                        // field names (needed for ADTs of external crates, which have no adt fact)
+                        let mut fnames = String::from("[");
+                        if !def.is_local() {
+                            for (i, f) in adt.variant(*vi).fields.iter().enumerate() {
+                                if i > 0 {
+                                    fnames.push(',');
+                                }
+                                esc(&f.name.to_string(), &mut fnames);
+                            }
+                        }
+                        fnames.push(']');
                         format!(
-                            "{{\"r\":\"agg\",\"ak\":\"adt\",\"adt\":{},\"v\":{},\"o\":{}}}",
+                            "{{\"r\":\"agg\",\"ak\":\"adt\",\"adt\":{},\"v\":{},\"fn\":{},\"o\":{}}}",
                             js(&key(tcx, *def)),
                             js(&vname),
+                            fnames,
                             ops
                         )
                     }
